@@ -22,7 +22,9 @@ RULE = ("(a) generated point clouds and meshes with quantized float positions / 
         "types outside the skip set are token-identical to the ordinary decode, attributes of types inside the skip set "
         "are token-identical to the all-skipped decode (an attribute's result depends only on whether its own type is "
         "skipped), every attribute requested to be quantized comes back with its transform description when skipped. "
-        "Correspondence: the model decodes the same streams of every method under the same three skip sets.")
+        "Correspondence: the model decodes the same streams of every method under the same three skip sets."
+        ' Re-laid-out legacy meshes of props/meshlegacy.py (family given:meshlegacy) run the three decodes + '
+        'skipapply too.')
 THEOREM_BACKED = ('DracoProps.C10 (sequential decoders, every bitstream version, every stream): skip_of_normal / '
                   'skip_unaffected / skip_mono / skip_equiv / skip_accept_iff_legacy / portable_readback, '
                   'skip_of_normal_with; DracoProps.C10Kd (kd-tree body, every version): kd_skipGeomOKU, kd_skipGeomOK_false'
@@ -31,9 +33,12 @@ THEOREM_BACKED = ('DracoProps.C10 (sequential decoders, every bitstream version,
                   'DracoProps.C10Eb (Edgebreaker body, bitstream >= 2.0): eb_skip_of_normal, ebGuarded_skipGeomOK, '
                   'skip_of_normal_v2 (the COMPLETE decoder on every stream whose header announces a version >= 2.0), '
                   'skip_of_normal_eb_stream (see evidence.coverage.theorems)')
-CORRESPONDENCE_ONLY = ('Edgebreaker streams of bitstream < 2.0: not proved and believed false of the code when a later '
-                       'attributes decoder uses a parent-dependent prediction scheme (no witness stream); they, and any stream '
-                       "tagged model:unsupported_*, are checked by Spec.skipCheck on the implementation's outputs only")
+CORRESPONDENCE_ONLY = ('Edgebreaker streams of bitstream < 2.0: eb_skip_of_normal is for >= 2.0 and is FALSE of the code below —'
+                       ' KNOWN FINDING legacy-eb-parent-scheme-skip (accepted assembled streams whose later attributes decoder '
+                       'uses a parent-dependent portable prediction scheme decode the non-skipped attribute differently under '
+                       'SetSkipAttributeTransform(POSITION); no released encoder writes them; the model answers unsupported); '
+                       "these, and any stream tagged model:unsupported_*, are checked by Spec.skipCheck on the implementation's "
+                       'outputs only')
 EXPLANATION = ('the theorems are about the complete decoder model (sequential: all versions; kd-tree; Edgebreaker >= '
                '2.0); the model is tied to the code by decoding every generated stream of every method and every '
                'testdata stream under three skip sets on both sides')
